@@ -53,6 +53,18 @@ Proof.
       repeat (destruct H as [<-|H]; [reflexivity|]); destruct H.
 Qed.
 
+Lemma late_call_nokey w sid c rc : nokey w -> nokey (late_call w sid c rc).
+Proof.
+  intros N. unfold late_call. destruct (nth_error (w_subs w) sid) as [s|].
+  2:{ intros e H. simpl in H. apply in_app_or in H as [H|[<-|[]]]; [exact (N e H)|reflexivity]. }
+  destruct (invoke sid s c rc) as [s3 evs] eqn:I.
+  intros e H. simpl in H. apply in_app_or in H as [H|H]; [exact (N e H)|].
+  destruct c as [l|l i re]; simpl in I.
+  - injection I as <- <-. destruct H as [<-|[]]. reflexivity.
+  - destruct (nth_error (s_futs s) i) as [[l' []]|]; injection I as <- <-; simpl in H;
+      repeat (destruct H as [<-|H]; [reflexivity|]); destruct H.
+Qed.
+
 Theorem no_keyerror : forall es, nokey (run es).
 Proof.
   induction es as [|e es IH] using rev_ind; [intros e []|].
@@ -63,12 +75,15 @@ Proof.
   - destruct (w_init w); [|exact IH]. apply fold_nokey; [exact IH|].
     intros q H. left. intros K. apply a_find_none_keys in K. contradiction.
   - unfold register. destruct (nth_error (w_subs w) s) as [sb|]; [|exact IH].
+    destruct (s_rc sb); [exact IH|].
     apply try_nokey; [exact IH|]. left. simpl. rewrite a_find_set_same. discriminate.
   - unfold register. destruct (nth_error (w_subs w) s) as [sb|]; [|exact IH].
+    destruct (s_rc sb); [exact IH|].
     apply try_nokey; [exact IH|]. left. simpl. rewrite a_find_set_same. discriminate.
   - unfold run_loop.
-    assert (H : forall q w1, nokey w1 -> nokey (fold_left set_rc q w1)).
-    { induction q as [|x q IHq]; intros w1 N; simpl; [exact N|]. apply IHq, set_rc_nokey, N. }
+    assert (H : forall q w1, nokey w1 -> nokey (fold_left run_item q w1)).
+    { induction q as [|x q IHq]; intros w1 N; cbn [fold_left]; [exact N|]. apply IHq.
+      destruct x as [s0 st0|s0 c0 rc0]; cbn [run_item]; [apply (set_rc_nokey w1 (s0, st0))|apply late_call_nokey]; exact N. }
     apply H. exact IH.
 Qed.
 
@@ -84,10 +99,10 @@ Proof.
     unfold track in Tr. destruct (after_spawn s es) as [[p r]|] eqn:A; [|discriminate].
     destruct (at_most_once es s p r W A) as [sb [_ [_ CR]]].
     assert (M : In e (calls_of s (w_log (run es)))) by (apply filter_In; split; assumption).
-    destruct CR as [E _ _|st rc cb _ _ E _ _ _ _|st _ _ E _ _]; rewrite E in M.
-    - destruct M.
-    - destruct M as [<-|[]]. exists s. left. eauto.
-    - destruct M as [<-|[]]. exists s. right. reflexivity. }
+    destruct CR as [E _ _ _|st rc cb rest _ _ _ Ac _ _ _ _ _|st _ _ E _ _ _].
+    - rewrite E in M. destruct M.
+    - destruct (proj1 (Forall_forall _ _) Ac _ M) as [l ->]. exists s. left. eauto.
+    - rewrite E in M. destruct M as [<-|[]]. exists s. right. reflexivity. }
   destruct e as [s l rc|s|q|s l|s]; simpl in Ok.
   - exists s. left. eauto.
   - exists s. right. reflexivity.
